@@ -148,6 +148,7 @@ def oracle(case, res):
     stack, topidx = {}, {}
     open_once = {}                       # (o, T) -> {"later": bool, "yields": n, "cas": n}
     weak = None
+    seen2 = set()
     for e in res["events"]:
         T = e.actor
         if e.kind == "C":
@@ -212,6 +213,12 @@ def oracle(case, res):
                         c["yields"] += 1
         elif e.kind == "P" and e.words[1] in begun:
             o = e.words[1]
+            stv = _state(e.snap)
+            if stv == "2":
+                seen2.add(o)
+            elif o in seen2:
+                return ("the control %s does not stay completed: state=%s after it had been 2 (%s); every later "
+                        "call is stuck" % (o, stv, e.raw)), stats
             if e.words[0] == "once.cas":
                 c = open_once.get((o, T))
                 if c:
